@@ -148,7 +148,7 @@ class TrajectoryRun:
         m = self.model
         self.grid_events = [GridEvents(p) for p in m.PBM]
         self.iterator = precip.MonIterator(cfg.get('iterator', 'euler'), on_return=self._on_return, on_enter=self._on_enter)
-        self.observer = precip.StepObserver(self._on_step, max_steps=self.max_steps)
+        self.observer = precip.StepObserver(self._on_step, max_steps=self.max_steps, wall_budget=cfg.get('wall_budget'))
         for mon in self.monitors:
             mon.on_build(self, m)
         m.addCouplingModel(self.observer)
@@ -178,7 +178,9 @@ class TrajectoryRun:
                 m.solve(float(seg), solverType=self.iterator,
                         **({k: cfg[k] for k in ('minDtFrac', 'maxDtFrac') if k in cfg}))
             except StopRun:
-                if cfg.get('cap_per_segment') and si < len(segs) - 1:
+                if self.observer.time_capped:
+                    R.observe('runs_ended_by_wall_budget')
+                if cfg.get('cap_per_segment') and si < len(segs) - 1 and not self.observer.time_capped:
                     # logical step budget per solve() call: go on with the next call from the time reached
                     self.observer.max_steps += int(cfg['max_steps'])
                     self.observer.capped = False
